@@ -327,7 +327,10 @@ def _arg(graphs, d):
 
 def execute(graphs, op):
     """graphs: {gid: property graph object}.  Returns ('ok', value) | ('exc', class name, message)."""
-    o = dict(op)
+    try:
+        o = json.loads(json.dumps(op))          # fresh string objects per call (see topogen.execute)
+    except (TypeError, ValueError):
+        o = dict(op)
     name = o.pop('op')
     g = graphs[o.pop('g')]
     try:
